@@ -31,6 +31,7 @@ type Frame struct {
 	Parent   *Frame
 	Kids     []*Frame
 	Steps    []*Ev // steps executed directly in this frame (not in children)
+	First    *Ev   // first instruction of this frame, executed (step) or refused (fault)
 	Depth    int   // interpreter depth of this frame's steps (1 = top)
 	CodeLen  int   // code size of the target at entry (annotated online)
 	IsPre    bool  // target is a precompile at entry
@@ -273,6 +274,9 @@ func BuildHistory(evs []Ev, ex int) *History {
 				f := stack[len(stack)-1]
 				if e.K == evStep {
 					f.Steps = append(f.Steps, e)
+				}
+				if f.First == nil {
+					f.First = e
 				}
 			}
 			if e.K == evStep && isJournalOp(e.Op) {
